@@ -991,6 +991,12 @@ def replay(ctx, case):
             print("pdu   :", hx(b))
             print("impl  :", impl.dyn(b))
             print("oracle:", ctx.lean(["dec " + hx(b)])[0])
+        elif d == "client" and "kwargs" in c:
+            kw = dict(zip(c["kwargs"].keys(), unj(list(c["kwargs"].values()))))
+            print("call  :", c["method"], kw)
+            print("impl  :", client_call(loop, c["method"], (), kw))
+            print("the optional arguments left out mean:", {k: v for k, v in OMITTED_MEANS.items()})
+            return 0
         elif d == "client":
             args = unj(c["args"])
             f = eval_client(ctx, loop, [(c["method"], args, "replay")])[0]
